@@ -128,6 +128,10 @@ def worker(args):
     items, out_path, id0 = args
     from jaxtyping._import_hook import JaxtypingTransformer, Typechecker
     fac = lambda: JaxtypingTransformer(typechecker=Typechecker("beartype.beartype"))
+    # the IPython magic keeps ONE transformer for all cells (each cell is a Module): every other module of this worker
+    # goes through the same instance; the import hook builds a fresh one per module
+    shared = fac()
+    fac_shared = lambda: shared
     probs = []
     n = 0
     with open(out_path, "w") as f:
@@ -139,7 +143,7 @@ def worker(args):
                 except (SyntaxError, UnicodeDecodeError, ValueError, RecursionError, MemoryError):
                     continue
             try:
-                row, problems = validate_source(src, path, fac)
+                row, problems = validate_source(src, path, fac_shared if k % 2 else fac)
             except RecursionError:
                 continue
             row["id"] = id0 + k
@@ -290,7 +294,8 @@ def main(tier):
                            % (ngen, consts["MaxPro"], consts["MaxNodes"], "a seeded sample of 1200 files" if tier == "quick" else "all files"))
         chk.sample({"generated_module": items[5][1]})
         chk.part("programs", generated=ngen, corpus=n - ngen)
-        chk.assumptions += ["the IPython magic uses the same JaxtypingTransformer.visit(Module) entry point",
+        chk.assumptions += ["the IPython magic uses the same JaxtypingTransformer.visit(Module) entry point, with one instance for "
+                            "all cells: every other module is transformed by an instance that has transformed others before",
                             "behavioural equivalence of well-typed calls is covered by C07, not re-run here"]
     except MachineryFailure as e:
         return chk.abort(str(e))
